@@ -24,3 +24,46 @@ package common
 //@ ensures err == nil ==> fresh(result0) && rpos(r) == p0 + 32 && I(*result0) < R_MOD && fval(I(*result0)) == LEb(rd_data(r), p0, 32)
 //@ ensures rpos(r) >= p0 && rpos(r) <= p0 + 32
 //@ modifies rpos(r)
+
+// ---- transcript (C14). tr(t) = bytes logically pending for the next challenge.
+
+//@ func NewTranscript
+//@ props C14
+//@ prelude bytes
+//@ ensures fresh(result) && validTr(result) && tr(result) == strbytes(label)
+
+//@ func Transcript.AppendMessage
+//@ props C14
+//@ prelude bytes
+//@ requires validTr(t)
+//@ ensures tr(t) == cat(old(tr(t)), cat(bseq(label), bseq(message)))
+//@ modifies *(t.buff)
+
+//@ func Transcript.DomainSep
+//@ props C14
+//@ prelude bytes
+//@ requires validTr(t)
+//@ ensures tr(t) == cat(old(tr(t)), bseq(label))
+//@ modifies *(t.buff)
+
+//@ func Transcript.AppendScalar
+//@ props C14
+//@ prelude bytes field bytesint
+//@ requires validTr(t)
+//@ ensures tr(t) == cat(old(tr(t)), cat(bseq(label), frle(*scalar)))
+//@ modifies *(t.buff)
+
+//@ func Transcript.AppendPoint
+//@ props C14
+//@ prelude bytes field curve bytesint
+//@ requires validTr(t)
+//@ ensures tr(t) == cat(old(tr(t)), cat(bseq(label), encp(point.inner.X, point.inner.Y, point.inner.Z)))
+//@ modifies *(t.buff)
+
+//@ func Transcript.ChallengeScalar
+//@ props C14
+//@ prelude bytes field bytesint bytesbridge frint
+//@ requires validTr(t)
+//@ ensures result == fr_of_int(le_int(sha256(cat(old(tr(t)), bseq(label)))) % R_MOD)
+//@ ensures tr(t) == cat(bseq(label), frle(result))
+//@ modifies *(t.buff), hcontent(t.state)
